@@ -207,3 +207,37 @@ class BNRemoveNodeChecked(BNRemoveNode):
 
 
 register(BNRemoveNodeChecked())
+
+
+class MNAddEdge(Contract):
+    file = "pgmpy/models/MarkovNetwork.py"
+    qual = "MarkovNetwork.add_edge"
+
+    def variants(self, ex):
+        g = new_graph("MarkovNetwork", "mn", directed=False, latents=False)
+        yield "any", {"self": g, "u": atom("u"), "v": atom("v")}, {}
+
+    def pre(self, ex, st, args):
+        g = args["self"]
+        a = fresh("a", Atom)
+        return z3.And(wf_graph(g), z3.ForAll([a], z3.Not(g.fields["_E"][a, a])))
+
+    def snapshot(self, ex, st, args):
+        return graph_snapshot(args["self"])
+
+    def raises(self, ex, st, args):
+        return {"ValueError": args["u"].z == args["v"].z}
+
+    def on_raise(self, ex, st, args, old, exc):
+        return graph_unchanged(args["self"], old)
+
+    def post(self, ex, st, args, old, result):
+        g, u, v = args["self"], args["u"].z, args["v"].z
+        a, b = fresh("a", Atom), fresh("b", Atom)
+        return z3.And(
+            z3.ForAll([a, b], g.fields["_E"][a, b] == z3.Or(old["_E"][a, b], z3.And(a == u, b == v), z3.And(a == v, b == u))),
+            z3.ForAll([a], g.fields["_nodes"][a] == z3.Or(old["_nodes"][a], a == u, a == v)),
+            wf_graph(g), z3.ForAll([a], z3.Not(g.fields["_E"][a, a])))
+
+
+register(MNAddEdge())
